@@ -48,7 +48,8 @@ Lemma step_redirect_status s o f' :
 Proof.
   intros H.
   destruct o;
-    unfold step, upd, do_proceed, do_premature, do_try100, do_try_response, do_read, do_write_body in H;
+    unfold step, upd, do_proceed, do_premature, do_try100, do_try_response, do_read, do_write_body,
+      do_call_into_receive in H;
     cbn [fst snd] in H;
     repeat (c14_case H; cbn [fst snd s_obj with_flow with_obj add_consumed add_sent] in H);
     try discriminate;
